@@ -110,11 +110,45 @@ def run(rep, tier):
         rep.ob("R1", "xdis.bytecode.Bytecode.%s" % meth, "line_offset=first_line-co_firstlineno", got in (want, alt), expected="first_line - co.co_firstlineno", derived=got,
                msg="Bytecode.%s does not pass first_line - co_firstlineno as the line offset" % meth)
         rep.analysed("xdis.bytecode.Bytecode.%s" % meth)
-    # (d) std.get_instructions -> self.Bytecode(x).get_instructions(x, first_line)
-    m, fn = repo.function("xdis.std._StdApi.get_instructions")
-    src = ast.unparse(fn)
-    rep.ob("R1", "xdis.std._StdApi.get_instructions", "forwards-first_line", "get_instructions(x, first_line)" in src, expected="self.Bytecode(x).get_instructions(x, first_line)",
-           derived=ast.unparse(fn.body[-1])[:120])
+    # (d) std.get_instructions(x, first_line): specialised on the folded default API object, inlined through its Bytecode class down to the decoder call
+    F.load("xdis.std")
+    std_mod = F.modules.get("xdis.std")
+    api_obj = std_mod.ns.get("_std_api") if std_mod else None
+    A_ = std_mod.ns.get("_StdApi") if std_mod else None
+    gi = A_.lookup("get_instructions") if isinstance(A_, ClassRef) else None
+    if not isinstance(gi, FuncRef) or not isinstance(api_obj, Instance):
+        raise AnalysisError("anchor vanished: xdis.std._StdApi.get_instructions / xdis.std._std_api")
+    rep.analysed(gi.qualname)
+    from ..sve import eval_term
+
+    def std_run(sc):
+        seen_ = {}
+
+        def hook3(spec, name, fv, args, kw, node):
+            if name.endswith("get_code_object"):
+                return Sym("co", "obj!")
+            if name.endswith("findlinestarts"):
+                return []
+            if name.endswith("get_instructions_bytes"):
+                seen_["kw"] = dict(kw)
+                seen_["args"] = list(args)
+                return Sym("gen", "gen", {})
+            return NotImplemented
+        sp_ = Spec(F, hooks=[hook3], opaque_funcs={"parse_exception_table"})
+        sp_.gen_elem_hook = lambda spec, gen, tag: Sym("inst", "obj!")
+        kwargs = {"show_caches": sc} if "show_caches" in [a.arg for a in gi.node.args.args] else {}
+        out_ = sp_.run(gi, [api_obj, Sym("x"), FL], kwargs)
+        return sp_, out_, seen_, kwargs
+    sp_d, out_d, seen_d, _ = std_run(False)
+    a = seen_d.get("args", [])
+    lo = seen_d.get("kw", {}).get("line_offset", a[7] if len(a) > 7 else None)
+    try:
+        lo_val = eval_term(lo, {repr(FL): 1234, "attr(co, 'co_firstlineno')": 1000}) if lo is not None else None
+    except Exception as ex:
+        lo_val = "not evaluable: %s" % ex
+    rep.ob("R1", "xdis.std._StdApi.get_instructions", "forwards-first_line", lo_val == 234, expected="the decoder's line_offset is first_line - co.co_firstlineno (1234, 1000 -> 234)",
+           derived={"line_offset": show(lo)[:80], "evaluated": lo_val},
+           msg="xdis.std.get_instructions(x, first_line) does not shift the reported lines by first_line - co_firstlineno")
     # ---------------------------------------------------------------- R2
     sm = repo.module("xdis.std")
     m, init = repo.function("xdis.std._StdApi.__init__")
@@ -260,37 +294,20 @@ def run(rep, tier):
     else:
         rep.ob("R5", "xdis.std.make_std_api", "float-branch", False, expected="isinstance(python_version, float) conversion", derived="not found")
     # ---------------------------------------------------------------- R7 inline CACHE entries are hidden by default, as in dis (show_caches=False)
-    A_ = F.modules["xdis.std"].ns.get("_StdApi")
-    gi = A_.lookup("get_instructions") if isinstance(A_, ClassRef) else None
-    if not isinstance(gi, FuncRef):
-        raise AnalysisError("anchor vanished: xdis.std._StdApi.get_instructions")
-    rep.analysed(gi.qualname)
-
-    def bc_hook(spec, name, fv, args, kw, node):
-        if name == "BytecodeClass":
-            return Sym("bc", "obj!")
-        return NotImplemented
     for sc, want in ((False, ["NotEq(attr(%s, 'opname'), 'CACHE')"]), (True, [])):
-        me_ = Instance(A_)
-        me_.attrs["Bytecode"] = Sym("BytecodeClass", "func")
-        sp = Spec(F, hooks=[bc_hook])
-        sp.gen_elem_hook = lambda spec, gen, tag: Sym("inst", "obj!")
-        kwargs = {"show_caches": sc}
-        if "show_caches" not in [a.arg for a in gi.node.args.args]:
-            kwargs = {}
-        sp.run(gi, [me_, Sym("x")], kwargs)
+        sp, out_, seen_, kwargs = std_run(sc)
         ys = [e for k, e in flatten_effects(sp.effects) if k == "yield"]
         srcs = [e for k, e in flatten_effects(sp.effects) if k == "loop-begin"]
         got = None
         okc = False
-        if len(ys) == 1 and len(srcs) == 1:
+        if len(ys) == 1 and len(srcs) >= 1:
             elem = show(ys[0].args[0])
             got = [show(g) for g in ys[0].guards if not (isinstance(g, Op) and g.op == "in-loop")]
-            okc = got == [w % elem for w in want] and "get_instructions" in show(srcs[0].args[2])
+            okc = got == [w % elem for w in want] and any(show(s_.args[3].cond) == "iter-more(gen)" for s_ in srcs) and "args" in seen_
         elif not ys:
             got = "returns the underlying iterator unfiltered"
         if sc is False or kwargs:
-            rep.ob("R7", gi.qualname, "cache-entries:show_caches=%s" % sc, okc, expected="yields every instruction of Bytecode(x).get_instructions(x, first_line)%s" % (" except CACHE" if not sc else ""),
+            rep.ob("R7", gi.qualname, "cache-entries:show_caches=%s" % sc, okc, expected="yields every instruction the decoder produces%s" % (" except CACHE" if not sc else ""),
                    derived=got, msg="dis.get_instructions(x) leaves out the inline CACHE entries of 3.11+ code unless show_caches=True; xdis.std.get_instructions %s" % (
                        "yields them" if not sc else "does not yield them on request"))
     m_std, init_std = repo.function("xdis.std._StdApi.__init__")
